@@ -51,9 +51,12 @@ def jsonable(x):
     return repr(x)
 
 
-def concrete_run(ob, values):
-    """Run the harness concretely on the real environment. Returns (failed_labels, reached, obs, exc)."""
+def concrete_run(ob, values, index_objects=False):
+    """Run the harness concretely on the real environment. Returns (failed_labels, reached, obs, exc).
+    index_objects: harnesses that ask (`ex.index_objects`) present integer INDICES as objects with __index__ instead of ints -
+    an integer proxy stands for either, and code may tell them apart."""
     cx = symx.Concrete(values)
+    cx.index_objects = index_objects
     cm = ob.conc_env() if ob.conc_env else None
     obs = None
     err = None
@@ -95,6 +98,12 @@ def run_obligation(ob, tier, seed):
                 failed, reached, cobs, err = concrete_run(ob, v["values"])
                 reproduced = v["label"] in failed
                 detail = err or ("failed labels on replay: %r" % (failed,))
+                if not reproduced:
+                    failed2, _r, _o, err2 = concrete_run(ob, v["values"], index_objects=True)
+                    if v["label"] in failed2:
+                        reproduced = True
+                        detail = "reproduces when the indices are objects with __index__ (not with plain ints)"
+                        v = dict(v, values=dict(v["values"], __index_objects__=True))
             rec = {"label": v["label"], "values": jsonable(v["values"]), "reproduced": bool(reproduced),
                    "detail": detail}
             out["violations"].append(rec)
